@@ -99,14 +99,33 @@ def run(ctx: common.Run):
     for fam in (cirq.X, cirq.Y, cirq.Z, cirq.H, cirq.CZ, cirq.CNOT, cirq.SWAP, cirq.ISWAP, cirq.XX, cirq.YY, cirq.ZZ):
         for e in (0.5, -0.5, 1.5, -1.5, 2.5, 0.25, -0.25, 3):
             pre.append((fam**e, None))
+    # matrix gates whose synthesis comes out with a special global phase (exactly -1, +-i): the decomposition must carry it
+    P = {'I': np.eye(2), 'X': cirq.unitary(cirq.X), 'Y': cirq.unitary(cirq.Y), 'Z': cirq.unitary(cirq.Z), 'H': cirq.unitary(cirq.H), 'S': cirq.unitary(cirq.S)}
+    special = []
+    for ph in (1, -1, 1j, -1j, np.exp(0.3j)):
+        for a in 'IXYZHS':
+            special.append(cirq.MatrixGate(ph * P[a]))
+        for a, b in (('X', 'Z'), ('Z', 'X'), ('Z', 'Z'), ('I', 'I'), ('X', 'X'), ('Y', 'Z'), ('H', 'S'), ('I', 'Z')):
+            special.append(cirq.MatrixGate(ph * np.kron(P[a], P[b])))
+        for g2 in (cirq.CZ, cirq.CNOT, cirq.SWAP, cirq.ISWAP):
+            special.append(cirq.MatrixGate(ph * cirq.unitary(g2)))
+    special += [cirq.MatrixGate(cirq.unitary(cirq.rx(2 * np.pi))), cirq.MatrixGate(cirq.unitary(cirq.rz(2 * np.pi))), cirq.MatrixGate(cirq.unitary(cirq.ry(np.pi)))]
     if ctx.tier == 'quick':
         pre = [pre[j] for j in range(ctx.seed % 2, len(pre), 2)]
+        special = special[ctx.seed % 2::2] + special[1 - ctx.seed % 2::6]
+    pre += [(g, None) for g in special]
+    # controlled qudit clock / shift powers with a global shift (the shift is extracted as a phase on the controls)
+    for G in (cirq.ZPowGate, cirq.XPowGate):
+        for d in (3, 4):
+            for sh, e in ((0.5, 0.3), (-0.25, 1.0), (0.5, 2.0)):
+                pre.append((cirq.ControlledGate(G(dimension=d, global_shift=sh, exponent=e)), None))
+                pre.append((cirq.ControlledGate(G(dimension=d, global_shift=sh, exponent=e), control_qid_shape=(3,), control_values=[2]), None))
     for i in range(n + len(pre)):
         if i < len(pre):
             g, forced = pre[i]
             kq = cirq.num_qubits(g)
-            qudit = False
-            dims = [2] * kq
+            qudit = any(d != 2 for d in cirq.qid_shape(g))
+            dims = list(cirq.qid_shape(g))
         else:
             forced = None
             kq = rng.choice([1, 1, 2, 2, 3])
@@ -211,7 +230,13 @@ def run(ctx: common.Run):
             reqs.append(reqs[-1] if meta[-1][0].startswith('apply_unitary') else None)
             meta.append(('act_on(sv)', repr(op_m), shape, positions, st.target_tensor.reshape(-1) * np.linalg.norm(vec)))
         # ---- decomposition
-        dec = cirq.decompose_once(op2, None)
+        try:
+            dec = cirq.decompose_once(op2, None)
+            full = cirq.decompose(op2)
+        except (ValueError, TypeError) as e:
+            ctx.report_witness('decompose:raises', f'the operation has a matrix but decomposing it raises {type(e).__name__}: {str(e)[:100]}',
+                               {'lines': [{'op': repr(op2)}], 'impl_out': [str(e)[:300]], 'spec_out': ['operations whose product is the reported matrix'], 'theorem_or_correspondence': 'decomposition product via applyOps'})
+            dec, full = None, []
         if dec is not None:
             dops = list(cirq.flatten_to_ops(dec))
             if all(set(d.qubits) <= set(op2.qubits) for d in dops) and all(cirq.has_unitary(d) for d in dops):
@@ -219,7 +244,6 @@ def run(ctx: common.Run):
                 lops = [{'m': [common.c2j(z) for z in cirq.unitary(d).reshape(-1)], 'axes': [qpos[q] for q in d.qubits]} for d in dops]
                 reqs.append({'p': 'C01', 'op': 'unitary', 'shape': dims, 'ops': lops})
                 meta.append(('decompose_once', repr(op2), dims, None, u))
-        full = cirq.decompose(op2)
         if full and not (len(full) == 1 and full[0] == op2):
             if all(set(d.qubits) <= set(op2.qubits) for d in full) and all(cirq.has_unitary(d) for d in full):
                 qpos = {q: j for j, q in enumerate(op2.qubits)}
